@@ -411,6 +411,12 @@ impl Ctx {
                 self.c = Some(Box::new(CompressorOxide::new(num(a[1]) as u32)));
                 "ok".into()
             }
+            "cnewzip" => {
+                // the compressor mz_deflateInit2 creates: TDEFL_COMPUTE_ADLER32 | flags(level, window_bits, strategy)
+                let f = 0x2000 | create_comp_flags_from_zip_params(num(a[1]) as i32, num(a[2]) as i32, num(a[3]) as i32);
+                self.c = Some(Box::new(CompressorOxide::new(f)));
+                format!("flags={}", f)
+            }
             "cdefault" => {
                 self.c = Some(Box::default());
                 "ok".into()
@@ -647,6 +653,10 @@ impl Ctx {
                 why = "outfull";
                 break;
             }
+            if out.len() > (1 << 25) {
+                why = "runaway";
+                break;
+            }
         }
         format!(
             "st={} in={} out={} calls={} why={} o={} bh={:016x} th={:016x} ad={} tr={}",
@@ -707,6 +717,10 @@ impl Ctx {
             }
             if stall > sc.len() {
                 why = "stall";
+                break;
+            }
+            if out.len() > (1 << 25) {
+                why = "runaway";
                 break;
             }
         }
